@@ -185,6 +185,12 @@ def run_m6bc(rng, tier, case, reference):
             case.reject(flow.describe_error(r)); return
         case.check('uc.setup_works', False, plant=a, error=flow.describe_error(r)); return
     if not r.solved:
+        if reference and r.res != 'inaccurate':
+            ref = reference_uc(spec, ck)
+            if ref is not None and ref['status'] in ('optimal', 'infeasible'):
+                case.check('uc.feasibility_agrees_with_reference', ref['status'] == 'infeasible', plant={k: a[k] for k in a if k not in ('type', 'name', 'nodes', 'price')},
+                           freq=g['freq'], unit=g['unit'], eao=str(r.res), reference=ref['status'], reference_value=ref['value'])
+                return
         case.inconc('not solved: ' + str(r.res)); return
     x = np.asarray(r.res.x, float)
     m = r.op.mapping
@@ -292,7 +298,7 @@ def run_m6bc(rng, tier, case, reference):
         else:
             sol = ref
             if sol['status'] != 'optimal':
-                case.check('uc.value_equals_reference', False, **who, eao=float(r.res.value), reference=sol['status'])
+                case.check('uc.feasibility_agrees_with_reference', False, **who, eao='solved', eao_value=float(r.res.value), reference=sol['status'])
             else:
                 V = float(r.res.value)
                 jump = bool(a.get('ramp') is not None and (a.get('time_already_running', 0) or 0) > 0 and
@@ -419,10 +425,10 @@ def run_case(rng, tier, case):
     r = rng.random()
     if r < 0.4:
         run_m6a(rng, tier, case)
-    elif r < 0.75:
-        run_m6bc(rng, tier, case, reference=False)
+    elif r < 0.6:
+        run_m6bc(rng, tier, case, reference=False)      # with start / shutdown ramp profiles: trace clauses only
     else:
-        run_m6bc(rng, tier, case, reference=True)
+        run_m6bc(rng, tier, case, reference=True)       # trace clauses + reference optimum
 
 
 def _is_f9(v, rec):
